@@ -6,10 +6,12 @@ use crate::engine::Ctx;
 
 pub mod c01;
 pub mod c04;
+pub mod c05;
 pub mod c06;
 pub mod c11;
 pub mod c13;
 pub mod c15;
+pub mod c19;
 pub mod c20;
 pub mod history;
 
@@ -56,9 +58,11 @@ macro_rules! simple_checks {
 
 simple_checks! {
     "C11" => c11,
+    "C05" => c05,
     "C06" => c06,
     "C13" => c13,
     "C15" => c15,
+    "C19" => c19,
     "C20" => c20,
 }
 
